@@ -523,6 +523,217 @@ theorem c03_eval_after_change_sources {P : Type} (opa ns : ℝ) (Yof : P → Lis
     svcRun opa Yof ds st [.changeSources W', .eval p ns] = [stackedLLR opa ns W' (Yof p) ds] := by
   simp [svcRun, expand, lowRun, lowStep, stackedLLR, evalWith]
 
+/-! ### `calcRow` (the loop of `calculate`), its slice bounds, and `a_jk = W_k·Y_jk` -/
+
+namespace C03
+section
+variable {K : Type} [Field K] [LinearOrder K] [IsStrictOrderedRing K]
+
+omit [LinearOrder K] [IsStrictOrderedRing K] in
+theorem calcRowS_eq (groups : List (List K × List K)) (init : List K) (s : ℕ) :
+    calcRowS init groups s = calcRow init groups s := by
+  induction groups generalizing init s with
+  | nil => simp [calcRowS, calcRow, sliceBounds]
+  | cons g rest ih =>
+    obtain ⟨w, y⟩ := g
+    have := ih (setSlice init s (List.zipWith (· * ·) w y)) (s + w.length)
+    unfold calcRowS at this ⊢
+    simp only [List.map_cons, sliceBounds, List.zip_cons_cons, List.foldl_cons, calcRow]
+    exact this
+
+theorem split_pairs_length {α : Type} (sizes : List ℕ) (W Y : List α)
+    (hW : W.length = sizes.sum) (hY : Y.length = sizes.sum) :
+    (∀ g ∈ List.zip (splitSizes sizes W) (splitSizes sizes Y), g.1.length = g.2.length) ∧
+    ((List.zip (splitSizes sizes W) (splitSizes sizes Y)).map (fun g => g.1.length)).sum = sizes.sum := by
+  induction sizes generalizing W Y with
+  | nil => simp [splitSizes]
+  | cons n rest ih =>
+    simp only [List.sum_cons] at hW hY
+    have h := ih (W.drop n) (Y.drop n) (by simp [hW]) (by simp [hY])
+    simp only [splitSizes, List.zip_cons_cons, List.mem_cons, List.map_cons, List.sum_cons]
+    refine ⟨?_, ?_⟩
+    · rintro g (rfl | hg)
+      · simp [List.length_take]; omega
+      · exact h.1 g hg
+    · rw [h.2]; simp [List.length_take]; omega
+
+omit [LinearOrder K] [IsStrictOrderedRing K] in
+theorem split_flatMap_zipWith (sizes : List ℕ) (W Y : List K)
+    (hW : W.length = sizes.sum) (hY : Y.length = sizes.sum) :
+    (List.zip (splitSizes sizes W) (splitSizes sizes Y)).flatMap
+        (fun g => List.zipWith (· * ·) g.1 g.2) = List.zipWith (· * ·) W Y := by
+  induction sizes generalizing W Y with
+  | nil =>
+    have : W = [] := List.length_eq_zero_iff.mp (by simpa using hW)
+    simp [splitSizes, this]
+  | cons n rest ih =>
+    simp only [List.sum_cons] at hW hY
+    have h := ih (W.drop n) (Y.drop n) (by simp [hW]) (by simp [hY])
+    simp only [splitSizes, List.zip_cons_cons, List.flatMap_cons, h]
+    have hl : (W.take n).length = (Y.take n).length := by simp [List.length_take]; omega
+    conv_rhs => rw [← List.take_append_drop n W, ← List.take_append_drop n Y]
+    rw [List.zipWith_append hl]
+
+end
+end C03
+
+/-- The loop of `calculate` written with the slice bounds `slice(sidx, sidx+n_g)` of the code
+(`sliceBounds`) is the loop with the running index. -/
+theorem c03_calc_row_slices {K : Type} [Field K] (groups : List (List K × List K)) (init : List K) :
+    calcRowS init groups = calcRow init groups := by
+  induction groups generalizing init with
+  | nil => simp [calcRowS, calcRow, sliceBounds]
+  | cons g rest _ =>
+    have : ∀ (gs : List (List K × List K)) (i : List K) (s : ℕ), calcRowS i gs s = calcRow i gs s := by
+      intro gs
+      induction gs with
+      | nil => intro i s; simp [calcRowS, calcRow, sliceBounds]
+      | cons g gs ih =>
+        intro i s
+        obtain ⟨w, y⟩ := g
+        have h := ih (setSlice i s (List.zipWith (· * ·) w y)) (s + w.length)
+        unfold calcRowS at h ⊢
+        simp only [List.map_cons, sliceBounds, List.zip_cons_cons, List.foldl_cons, calcRow]
+        exact h
+    exact this _ _ 0
+
+/-- **`calculate` computes `a_jk = W_k·Y_jk`**: the per-group cached weight arrays and per-group yield
+arrays are the consecutive pieces of `W` and of the row `Y_j`; writing their products group by group
+into the slices of an uninitialised row of length `K` gives exactly `zipWith (·*·) W Y_j`, the row of
+`ajk` that every invariance theorem is about. -/
+theorem c03_calc_row_eq_ajk {K : Type} [Field K] [LinearOrder K] [IsStrictOrderedRing K]
+    (sizes : List ℕ) (W Y init : List K) (hW : W.length = sizes.sum) (hY : Y.length = sizes.sum)
+    (hi : init.length = sizes.sum) :
+    calcRow init (List.zip (splitSizes sizes W) (splitSizes sizes Y)) = List.zipWith (· * ·) W Y := by
+  obtain ⟨h1, h2⟩ := C03.split_pairs_length sizes W Y hW hY
+  rw [c03_calc_row_full _ init h1 (by rw [h2, hi]), C03.split_flatMap_zipWith sizes W Y hW hY]
+
+theorem c03_calc_rows_eq_ajk {K : Type} [Field K] [LinearOrder K] [IsStrictOrderedRing K]
+    (sizes : List ℕ) (W : List K) (Y : List (List K)) (inits : List K) (hW : W.length = sizes.sum)
+    (hY : ∀ row ∈ Y, row.length = sizes.sum) (hi : inits.length = sizes.sum) :
+    Y.map (fun row => calcRow inits (List.zip (splitSizes sizes W) (splitSizes sizes row)))
+      = ajk W Y := by
+  unfold ajk
+  apply List.map_congr_left
+  intro row hrow
+  exact c03_calc_row_eq_ajk sizes W row inits hW (hY row hrow) hi
+
+/-! ### The scatter-add on the flat values array refines the dense table -/
+
+namespace C03
+
+section
+variable {K : Type} [Field K] [LinearOrder K] [IsStrictOrderedRing K]
+
+theorem filter_fst_length_le_one {α β : Type} (l : List (α × β)) (q : α → Bool)
+    (hq : ∀ x y, q x = true → q y = true → x = y)
+    (hnd : (l.map Prod.fst).Nodup) : (l.filter (fun p => q p.1)).length ≤ 1 := by
+  induction l with
+  | nil => simp
+  | cons p l ih =>
+    rw [List.map_cons, List.nodup_cons] at hnd
+    obtain ⟨hp, hl⟩ := hnd
+    by_cases h : q p.1 = true
+    · have hnone : l.filter (fun r => q r.1) = [] := by
+        apply List.filter_eq_nil_iff.mpr
+        intro r hr hqr
+        have : r.1 = p.1 := hq _ _ (by simpa using hqr) h
+        exact hp (List.mem_map.mpr ⟨r, hr, this⟩)
+      simp [List.filter_cons, h, hnone]
+    · simp only [List.filter_cons, h]
+      exact ih hl
+
+omit [LinearOrder K] [IsStrictOrderedRing K] in
+theorem matching_length_le_one (src evt : List ℕ) (vals : List K)
+    (hnd : ((List.zip (List.zip src evt) vals).map Prod.fst).Nodup) (k i : ℕ) :
+    (matching src evt vals k i).length ≤ 1 := by
+  unfold matching
+  rw [List.length_map]
+  exact filter_fst_length_le_one (List.zip (List.zip src evt) vals)
+    (fun x => x.1 == k && x.2 == i)
+    (by
+      intro x y hx hy
+      simp only [Bool.and_eq_true, beq_iff_eq] at hx hy
+      exact Prod.ext (hx.1.trans hy.1.symm) (hx.2.trans hy.2.symm))
+    hnd
+
+theorem add_sum_eq_last (l : List K) (h : l.length ≤ 1) (x a : K) :
+    x + sumF l * a = (match l.getLast? with | some r => x + r * a | none => x) := by
+  match l, h with
+  | [], _ => simp [sumF]
+  | [r], _ => simp [sumF]
+  | _ :: _ :: _, h => simp at h
+
+theorem addSource_eq_scatterAdd (acc : List K) (src evt : List ℕ) (vals : List K)
+    (hnd : ((List.zip (List.zip src evt) vals).map Prod.fst).Nodup) (k : ℕ) (a : K) :
+    addSource acc a ((List.range acc.length).map (fun i => sumF (matching src evt vals k i)))
+      = scatterAdd acc src evt vals k a := by
+  unfold addSource scatterAdd
+  apply List.ext_getElem (by simp)
+  intro i h1 h2
+  have hi : i < acc.length := by simpa using h2
+  simp only [List.getElem_zipWith, List.getElem_map, List.getElem_range, List.getElem_zip]
+  exact add_sum_eq_last _ (matching_length_le_one src evt vals hnd k i) _ _
+
+theorem scatterAdd_length (acc : List K) (src evt : List ℕ) (vals : List K) (k : ℕ) (a : K) :
+    (scatterAdd acc src evt vals k a).length = acc.length := by
+  simp [scatterAdd]
+
+theorem foldl_sparse_eq_dense (src evt : List ℕ) (vals : List K)
+    (hnd : ((List.zip (List.zip src evt) vals).map Prod.fst).Nodup) (n : ℕ)
+    (ps : List (K × ℕ)) (acc : List K) (hacc : acc.length = n) :
+    ps.foldl (fun acc p => addSource acc p.1
+        ((List.range n).map (fun i => sumF (matching src evt vals p.2 i)))) acc
+      = ps.foldl (fun acc p => scatterAdd acc src evt vals p.2 p.1) acc := by
+  induction ps generalizing acc with
+  | nil => rfl
+  | cons p ps ih =>
+    simp only [List.foldl_cons]
+    have := addSource_eq_scatterAdd acc src evt vals hnd p.2 p.1
+    rw [hacc] at this
+    rw [this]
+    exact ih _ (by rw [scatterAdd_length, hacc])
+
+end
+
+end C03
+
+/-- **The source loop as coded** (boolean mask per source, fancy-index `+=` on the flat values array
+with the index arrays of the trial data manager) **computes the dense weighted sums**: whenever no
+(source, event) pair occurs twice — which is what makes numpy's buffered `+=` an addition — the
+stacked ratios of the code equal `ratioWeighted` on the dense table, hence (`c03_weighted_mean`) the
+`a_k`-weighted mean.  Pairs with a source index `≥ K` or an event index `≥ N'` are ignored by both. -/
+theorem c03_sparse_eq_dense {K : Type} [Field K] [LinearOrder K] [IsStrictOrderedRing K]
+    (ak : List K) (src evt : List ℕ) (vals : List K) (nSel : ℕ)
+    (hnd : ((List.zip (List.zip src evt) vals).map Prod.fst).Nodup) :
+    ratioSparse ak src evt vals nSel
+      = ratioWeighted ak (densify ak.length nSel src evt vals) nSel := by
+  have hs : sparseSums ak src evt vals nSel
+      = weightedSums ak (densify ak.length nSel src evt vals) nSel := by
+    unfold sparseSums weightedSums densify
+    have hz : List.zip ak ((List.range ak.length).map
+        (fun k => (List.range nSel).map (fun i => sumF (matching src evt vals k i))))
+        = (List.zip ak (List.range ak.length)).map
+          (fun p => (p.1, (List.range nSel).map (fun i => sumF (matching src evt vals p.2 i)))) := by
+      rw [List.zip_map_right]
+      apply List.map_congr_left
+      intro p _; rfl
+    rw [hz, List.foldl_map]
+    exact (C03.foldl_sparse_eq_dense src evt vals hnd nSel _ _ (by simp)).symm
+  unfold ratioSparse ratioWeighted
+  rw [hs]
+
+/-- The dense table built from the flat arrays is rectangular — the hypothesis `Rect` of the
+weighted-mean theorems is established by construction. -/
+theorem c03_densify_rect {K : Type} [Field K] [LinearOrder K] [IsStrictOrderedRing K]
+    (ak : List K) (src evt : List ℕ) (vals : List K) (nSel : ℕ) :
+    C03.Rect ak (densify ak.length nSel src evt vals) nSel := by
+  refine ⟨by simp [densify], ?_⟩
+  intro r hr
+  unfold densify at hr
+  obtain ⟨k, _, rfl⟩ := List.mem_map.mp hr
+  simp
+
 /-! ### Which builder makes `Y_jk` (`DetSigYieldService.construct_detsigyield_array`) -/
 
 namespace C03
@@ -744,6 +955,32 @@ theorem c03_perm_sources_llr (opa ns : ℝ) (N n : ℕ) {S S' : List (ℝ × ℝ
   rw [e1 S, e2] at this
   rw [this]
 
+/-- the multi-dataset value as a plain sum over (row, dataset) pairs -/
+theorem c03_evalWith_eq_sum (opa ns : ℝ) (D : List (List ℝ × Dataset ℝ)) :
+    evalWith opa ns (D.map Prod.fst) (D.map Prod.snd)
+      = (D.map (fun d => LLH.llr opa d.2.N (ns * (d.1.sum / total (D.map Prod.fst)))
+          ((ratioWeighted d.1 d.2.Rk d.2.nSel).map (LLH.xOfRatio d.2.N)))).sum := by
+  unfold evalWith datasetsOf
+  rw [c03_multi_additive, C03.fj_eq]
+  simp only [List.map_map, C03.zip_map_same]
+  rfl
+
+/-- **A dataset without any yield can be dropped from the analysis**: with an all-zero row `z` the
+value of the whole multi-dataset evaluation is the value without that dataset, whatever its events
+and wherever it stands. -/
+theorem c03_zero_row_dropped (opa ns : ℝ) (h1 : opa < 1) (pre post : List (List ℝ × Dataset ℝ))
+    (z : List ℝ) (hz : ∀ x ∈ z, x = 0) (d : Dataset ℝ) :
+    evalWith opa ns ((pre ++ (z, d) :: post).map Prod.fst) ((pre ++ (z, d) :: post).map Prod.snd)
+      = evalWith opa ns ((pre ++ post).map Prod.fst) ((pre ++ post).map Prod.snd) := by
+  have hzs : z.sum = 0 := List.sum_eq_zero hz
+  have ht : total ((pre ++ (z, d) :: post).map Prod.fst) = total ((pre ++ post).map Prod.fst) := by
+    rw [C03.total_eq, C03.total_eq]
+    simp [hzs]
+  rw [c03_evalWith_eq_sum, c03_evalWith_eq_sum, ht]
+  simp only [List.map_append, List.map_cons, List.sum_append, List.sum_cons]
+  rw [hzs, zero_div, mul_zero, c01_zero_at_ns0 opa h1]
+  ring
+
 /-- A dataset without any yield can be left out: with `f_j = 0` it contributes `llr(ns·0) = 0`
 (theorem `c01_zero_at_ns0`), whatever its events are. -/
 theorem c03_zero_row_contribution (opa : ℝ) (h1 : opa < 1) (ns : ℝ) (a : List (List ℝ)) (z : List ℝ)
@@ -792,3 +1029,8 @@ example : ({ W := [1, 2], Wc := [1, 2], a := [[9, 9]], f := [7] } : SvcState ℝ
 example : constructArrSpec 2 [[7, 8], [9]] = some [[7, 9], [8, 9]] := by decide
 example : constructArrCode 2 [[7, 8], [9]] = some [[some 7, some 9], [some 8, some 9]] := by decide
 example : constructArrSpec 3 [[7, 8], [9]] = none := by decide
+-- hypothesis of `c03_sparse_eq_dense`: the pairs (0,0), (0,1), (1,1) are distinct
+example : ((List.zip (List.zip [0, 0, 1] [0, 1, 1]) ([2, 4, 6] : List ℚ)).map Prod.fst).Nodup := by decide
+example : ratioSparse ([1, 3] : List ℚ) [0, 0, 1] [0, 1, 1] [2, 4, 6] 2
+    = ratioWeighted ([1, 3] : List ℚ) (densify 2 2 [0, 0, 1] [0, 1, 1] [2, 4, 6]) 2 :=
+  c03_sparse_eq_dense _ _ _ _ _ (by decide)
